@@ -7,6 +7,7 @@ import (
 	"fmt"
 	"math/rand"
 	"os"
+	"path/filepath"
 	"sort"
 	"strings"
 
@@ -39,10 +40,11 @@ type runVariant struct {
 	pieces  int  // > 1: standard input arrives in that many pieces with pauses (short reads)
 	outNull bool // standard output is /dev/null (a character device): only success is compared
 	oddName bool // FILE and -o names contain $, ~, blanks and braces
+	linkCwd bool // the working directory is entered through a symbolic link and -o is relative with a .. in it
 }
 
 func (v runVariant) String() string {
-	return fmt.Sprintf("procs=%d race=%v debug=%v in=%s out-o=%v existing-file=%v in-place=%v stdin-devnull=%v stdin-pieces=%d stdout-devnull=%v odd-file-names=%v", v.procs, v.race, v.debug, v.inPath, v.outFile, v.prefill, v.inPlace, v.devNull, v.pieces, v.outNull, v.oddName)
+	return fmt.Sprintf("procs=%d race=%v debug=%v in=%s out-o=%v existing-file=%v in-place=%v stdin-devnull=%v stdin-pieces=%d stdout-devnull=%v odd-file-names=%v cwd-through-symlink=%v", v.procs, v.race, v.debug, v.inPath, v.outFile, v.prefill, v.inPlace, v.devNull, v.pieces, v.outNull, v.oddName, v.linkCwd)
 }
 
 // runClass executes one variant and returns (success, output bytes, result).
@@ -84,6 +86,14 @@ func runClass(c *core.Ctx, cl detClass, v runVariant) (bool, []byte, *runner.Res
 			// FILE that is a pipe
 			opt.Stdin = cl.input
 			args = append(args, "/dev/stdin")
+		case "regular", "fileoffset", "socket":
+			// standard input that is not a pipe: a regular file, a regular file whose first line somebody else has
+			// read already (the input starts at the current offset), a socket
+			opt.Stdin = cl.input
+			opt.StdinKind = map[string]string{"regular": "file", "fileoffset": "fileoffset", "socket": "socket"}[v.inPath]
+			if len(cl.input) == 0 {
+				opt.StdinKind = ""
+			}
 		default:
 			if !v.devNull {
 				opt.Stdin = cl.input
@@ -91,6 +101,24 @@ func runClass(c *core.Ctx, cl detClass, v runVariant) (bool, []byte, *runner.Res
 		}
 	}
 	var outPath string
+	if v.outFile && v.linkCwd && !v.inPlace {
+		// real/deep is the working directory, entered as link -> real/deep; "-o ../sib/out" means real/sib/out
+		root := c.Scratch.Path("cwd")
+		os.MkdirAll(filepath.Join(root, "real", "deep"), 0o755)
+		os.MkdirAll(filepath.Join(root, "real", "sib"), 0o755)
+		os.Symlink(filepath.Join(root, "real", "deep"), filepath.Join(root, "link"))
+		opt.Dir = filepath.Join(root, "link")
+		opt.Env = append(opt.Env, "PWD="+opt.Dir)
+		outPath = filepath.Join(root, "real", "sib", outName)
+		args = append(args, "-o", "../sib/"+outName)
+		res := c.Crd.Run(opt, args...)
+		c.Eval(1)
+		out := res.Stdout
+		if res.OK() {
+			out = readFileOrNil(outPath)
+		}
+		return res.OK(), out, res
+	}
 	if v.outFile {
 		outPath = c.Scratch.Path(outName)
 		if v.inPlace && inFile != "" {
@@ -334,7 +362,7 @@ func checkC12(c *core.Ctx) {
 			variants = append(variants, v)
 		}
 		if cl.reads && cl.input != nil {
-			for _, ip := range []string{"dash", "file", "devstdin"} {
+			for _, ip := range []string{"dash", "file", "devstdin", "regular", "fileoffset", "socket"} {
 				v := base
 				v.inPath = ip
 				variants = append(variants, v)
@@ -374,6 +402,11 @@ func checkC12(c *core.Ctx) {
 			v.outNull = true
 			variants = append(variants, v)
 		}
+		if cl.writes {
+			v := base
+			v.outFile, v.linkCwd = true, true
+			variants = append(variants, v)
+		}
 		if cl.reads && cl.input != nil && cl.writes {
 			v := base
 			v.inPath = "file"
@@ -385,7 +418,7 @@ func checkC12(c *core.Ctx) {
 		for k := 0; k < combos; k++ {
 			v := runVariant{procs: []int{0, 1, 2, 4, 8, 16}[r.Intn(6)], race: r.Intn(4) == 0, debug: r.Intn(3) == 0, inPath: "stdin"}
 			if cl.reads && cl.input != nil {
-				v.inPath = []string{"stdin", "dash", "file", "devstdin"}[r.Intn(4)]
+				v.inPath = []string{"stdin", "dash", "file", "devstdin", "regular", "fileoffset", "socket"}[r.Intn(7)]
 			}
 			if cl.writes {
 				v.outFile = r.Intn(3) == 0
